@@ -139,7 +139,7 @@ def run(ctx):
     ctx.notes["negative_controls"] = "parser_counter_not_reset, generator_names_not_reset, cache_key_by_name each violate an invariant"
     # ---------------------------------------------------------------- pools
     calls = corpus_calls()
-    npools = 60 if ctx.thorough else 6
+    npools = 60 if ctx.thorough else 4
     pools = [list(p) for p in SPECIAL_POOLS]
     order = sorted(range(len(calls)), key=lambda k: h(ctx.seed, k))
     for p in range(npools):
@@ -159,7 +159,7 @@ def run(ctx):
         for s in range(NSLOTS):
             for seed in SEEDS[1:] if (special or ctx.thorough) else SEEDS[1:3]:
                 jobs.append((pi, [{"slot": s, "inst": "fresh"}], seed))
-        frac = 1 if (ctx.thorough and special) else (3 if special else (6 if ctx.thorough else 14))
+        frac = 1 if (ctx.thorough and special) else (4 if special else (6 if ctx.thorough else 14))
         for hs in hists:
             if len(hs) < 2:
                 continue
